@@ -46,7 +46,7 @@ H("t2_search", src="t_search.c", tus=["lang"], extra=["stubs/bsearch.c"], flags=
 
 P6_STRIP = {"lang": ["__CPROVER_file_local_lang_c_lang_search"]}
 for n in ("p6_auto", "p6_wipe"):
-    H(n, src="p_lang.c", tus=["lang", "dependency"], strip=P6_STRIP, c16=True, flags=CAD + ["--unwind", "40"], cap=600, rss=3.5)
+    H(n, src="p_lang.c", tus=["lang", "dependency", "langflags"], strip=P6_STRIP, c16=True, flags=CAD + ["--unwind", "40"], cap=600, rss=3.5)
 
 H("p1_write", src="p_str.c", tus=["polyseed", "dependency"], flags=CAD + ["--unwind", "98"], cap=120, rss=1.0)
 H("p3_lazy", src="p_str.c", tus=["dependency"], defs=["DEP_STR_MAX=1"], flags=CAD, cap=300, rss=2.0)
